@@ -96,6 +96,9 @@ def make_form(rng, i):
                 r.cells["appearance"] = hz(rng, "app", allow=lambda fr: no_instance(fr) and "(" not in fr)
             if rng.random() < 0.3 and bt in ("text", "hidden", "note"):
                 r.cells["default"] = hz(rng, "dflt", allow=static_safe)
+            if bt == "image" and rng.random() < 0.6:
+                # static default of an image question = a file name: written as jr://images/<name>, the name itself untouched
+                r.cells["default"] = hz(rng, "imgdflt", allow=static_safe, ws=False)
             if rng.random() < 0.25 and bt not in gen.HIDDEN_TYPES + gen.META_TYPES:
                 m = rng.choice(["image", "audio", "video"])
                 r.cells[m if not langs or rng.random() < 0.5 else f"{m}::{rng.choice(langs)}"] = hz(rng, f"{m}file", ws=False)
@@ -378,11 +381,15 @@ def check(ctx, form, sig, fmt="dict", sample=False):
         if r.kind == "q":
             if "appearance" in r.cells and c is not None:
                 cmp_attr("appearance", f"{e.path} @appearance", r.cells["appearance"], c.get("appearance"))
-            if "default" in r.cells and base_type(r) in ("text", "hidden", "note"):
+            if "default" in r.cells and base_type(r) in ("text", "hidden", "note", "image"):
                 nodes = p.resolve(e.path)
                 for nnode in nodes:
                     ctx.ctr("cells_recovered")
                     exp = norm_survey(r.cells["default"], fmt)
+                    if base_type(r) == "image":
+                        ctx.ctr("image_defaults_recovered")
+                        if "jr://images/" not in exp:
+                            exp = "jr://images/" + exp
                     got = unsmart(nnode.text or "")
                     if len(nnode):
                         ctx.viol("default:markup-injected", f"{e.path}: default {r.cells['default']!r} produced child elements", wit(channel="default"))
